@@ -17,7 +17,7 @@ RULE = ("per generated instance (values, numbins) the exhaustive optimum of ever
 ASSUMPTIONS = ["O1 enumerates all sorted sum-vectors (n <= 10)", "ilp disagreements are re-solved with CBC preprocessing off; agreement then = inconclusive(solver)",
                "rnp: numbins <= 5 (numbins >= 6 is KF-rnp-k6, no value returned)"]
 FLOORS = {"quick": {"distinct_nontrivial": 600, "cg.returns": 1000}, "thorough": {"distinct_nontrivial": 3000, "cg.returns": 5000}}
-CLASSES = ("small", "small", "ties", "equal", "perfect", "nearperfect", "powers", "onehuge", "zeros", "kgtn", "grid", "big", "huge")
+CLASSES = ("small", "small", "ties", "equal", "perfect", "nearperfect", "powers", "onehuge", "zeros", "kgtn", "grid", "big", "huge", "bignear")
 
 
 def plan(tier, seed):
@@ -35,8 +35,8 @@ def draw_instance(rng):
     else:
         nmax = {1: 8, 2: 10, 3: 10, 4: 9, 5: 8}.get(k, 7)
         n = rng.randint(1, nmax) if rng.random() < 0.5 else rng.randint(max(1, nmax - 2), nmax)
-    if cls in ("big", "huge"):
-        n = min(n, 8 if cls == "big" else 6)
+    if cls in ("big", "huge", "bignear"):
+        n = min(n, 6 if cls == "huge" else 8)
     return cls, k, gen.part_values(rng, cls, n, k)
 
 
